@@ -101,6 +101,13 @@ pub fn variants(kind: Kind, base: &ParCfg) -> Vec<ParCfg> {
                 c.consumer = Consumer::StopAfter(k as u16);
                 v.push(c);
             }
+            // a draining consumer that asks again after it has seen the end marker (once, twice): the answer is
+            // "nothing more" and the call still returns
+            for x in 1..=2u8 {
+                let mut c = base.clone();
+                c.extra_next = x;
+                v.push(c);
+            }
             // reader error at every set index, draining and early-stopping consumers
             for e in 0..=base.n_sets {
                 for (cons, stop) in [(Consumer::Drain, false), (Consumer::Drain, true), (Consumer::StopAfter((e / 2) as u16), false)] {
@@ -110,6 +117,11 @@ pub fn variants(kind: Kind, base: &ParCfg) -> Vec<ParCfg> {
                     c.stop_at_error = stop;
                     v.push(c);
                 }
+                // ... and one that drains past the error up to the end marker and asks once more
+                let mut c = base.clone();
+                c.reader_err_at = Some(e);
+                c.extra_next = 1;
+                v.push(c);
             }
             // each initialisation closure failing at each of its calls
             let mut c = base.clone();
@@ -179,6 +191,9 @@ fn classify(kind: Kind, cfg: &ParCfg, o: &Obs, ctx: &mut Ctx) -> bool {
     if cfg.consumer == Consumer::StopAfter(0) {
         ctx.class("consumer never asks");
     }
+    if cfg.extra_next > 0 && o.events.iter().any(|e| matches!(e, Evt::RecvAfterEnd { .. })) {
+        ctx.class("consumer asks again after the end marker");
+    }
     if cfg.reader_err_at.is_some() {
         ctx.class("reader error injected");
     }
@@ -201,7 +216,7 @@ fn classify(kind: Kind, cfg: &ParCfg, o: &Obs, ctx: &mut Ctx) -> bool {
     }
     match kind {
         Kind::C07 => cfg.n_sets >= 2 && (out_of_order || cfg.n_threads >= 2 || cfg.n_sets > cfg.queue_len + 1),
-        Kind::C08 => stopped_early || !faultless(cfg) || cfg.consumer == Consumer::StopAfter(0),
+        Kind::C08 => stopped_early || !faultless(cfg) || cfg.consumer == Consumer::StopAfter(0) || cfg.extra_next > 0,
         Kind::C15 => !faultless(cfg),
         Kind::C16 => cfg.n_sets > cfg.queue_len + 1,
     }
@@ -500,7 +515,7 @@ fn rule(kind: Kind) -> String {
     let common = "cases = (base configuration: worker threads 1..4, queue length 1..4 (less often 5..12, and for C07 / C16 rarely 60..70 or 125..140 with correspondingly many sets), number of sets, per-set worker yields, consumer/reader yields; scheduler in {random, PCT depth 1..5, round robin}; scheduler seed); every execution runs the real read_parallel_init / parallel_fasta(_init) / parallel_fastq(_init) under shuttle with an instrumented mock reader (tagged data sets, content-dependent outputs) or the real readers over generated documents whose batches have different sizes (1 in 13: additionally 1000..3000 tiny records read with a buffer of 8..56 KiB, i.e. batches of more than 1024 records; 1 in 4: 1..6 blank lines after the last record; C08 / C15, 1 in 4: the source starts to fail at a generated byte position with Other / WouldBlock / TimedOut / PermissionDenied / UnexpectedEof / InvalidData, once or persistently - a source polled 3000 times after a persistent error counts as a spinning reader). evaluations = executions (configuration variant x schedule). ";
     let own = match kind {
         Kind::C07 => "Oracle: with a draining consumer every set / record reaches the consumer exactly once with the output computed for it, records inside a set in file order, sets in file order with one worker, worker saw each set once, end marker once. Non-trivial = >= 2 sets and (out-of-order completion, >= 2 workers, or recycling).",
-        Kind::C08 => "Per base configuration the consumer behaviours (drain; stop after k results for every k in 0..=sets+1), a reader error at every set index and every init closure failing at each of its calls are enumerated. Oracle: shuttle reports no deadlock and no step-bound overrun, the call returns the expected result, and no callback runs after it returned. Non-trivial = consumer stopped with sets in flight, or a fault, or a consumer that never asks.",
+        Kind::C08 => "Per base configuration the consumer behaviours (drain; drain and ask once / twice more after the end marker; stop after k results for every k in 0..=sets+1), a reader error at every set index and every init closure failing at each of its calls are enumerated. Oracle: shuttle reports no deadlock and no step-bound overrun, the call returns the expected result, and no callback runs after it returned. Non-trivial = consumer stopped with sets in flight, or a fault, or a consumer that never asks, or one that asks again after the end.",
         Kind::C15 => "Per base configuration: reader error at every set index x {draining, stop at error, stop after k}, reader_init failing, dataset_init failing at each call; real readers with an invalid record at a generated index and failing reader_init / record_data_init / rset_data_init. Oracle: error received exactly once, no set from behind it, earlier sets at most once (all of them + end marker when draining), init failures come back as Err, parse error equals the sequential one. Non-trivial = every execution with a fault.",
         Kind::C16 => "Long inputs (up to hundreds of sets), slow and fast consumers. Oracle: dataset_init called at most queue_len + 1 times, every data set seen anywhere was created by it, at every fill: fills <= queue_len + min(received + 1, results finished by the workers) (the +1 only absorbs the lag of the consumer's own log), per-record output values alive at the same time at most (queue_len + 1) x (largest set) (creations minus drops counted by the output type; how often outputs are created is not bounded), record-set buffers bounded. Non-trivial = more sets than data sets (recycling happens).",
     };
